@@ -57,7 +57,7 @@ def c19_1(ctx: Ctx):
     ctx.check("if name in symbols: remove_uuids.add(uuid)" in t and "for uuid in remove_uuids: del names_auxdata[uuid]" in t, fnm, fnm.node, "functionNames entries naming a deleted symbol are removed", "changed")
 
 
-@rule("C19.2", ["C19"], "CFI directives naming a deleted symbol get the null UUID (and DW_EH_PE_omit for personality/lsda)", 4)
+@rule("C19.2", ["C19", "C08"], "CFI directives naming a deleted symbol get the null UUID (and DW_EH_PE_omit for personality/lsda)", 4)
 def c19_2(ctx: Ctx):
     fi = ctx.repo.func(DS + "_update_cfi_directive_symbols")
     lin = linear(fi.node)
@@ -84,7 +84,7 @@ def c19_2(ctx: Ctx):
     ctx.check(all(lin.under(g, "symbol in symbols") for g in st) and len(st) == 2, fi, fi.node, "only directives that name a deleted symbol are touched", "guard changed")
 
 
-@rule("C19.3", ["C19"], "remaining uses: error unless forced; exactly the expressions that mention a deleted symbol are dropped", 6)
+@rule("C19.3", ["C19", "C11"], "remaining uses: error unless forced; exactly the expressions that mention a deleted symbol are dropped", 6)
 def c19_3(ctx: Ctx):
     repo = ctx.repo
     fi = repo.func(DS + "_delete_symbolic_expressions")
